@@ -72,7 +72,7 @@ ValueStarts(c, B, p, n, acc) ==
 DefaultAttr == [label |-> << >>, count |-> 1, code |-> IDENT, units |-> << >>, hasValue |-> FALSE,
                 absent |-> FALSE, pos |-> 0, len |-> 0, hasLabel |-> FALSE]
 
-AttrComponent(B, p, dflt) ==
+AttrComponent(B, p, dflt, inObj) ==
   LET d    == B[p]
       hasL == FBit(d, 16)  hasC == FBit(d, 8)  hasR == FBit(d, 4)  hasU == FBit(d, 2)  hasV == FBit(d, 1)
       p1   == p + 1
@@ -91,6 +91,8 @@ AttrComponent(B, p, dflt) ==
       bad  == (IF ~ok THEN {"C04.Truncated"} ELSE {})
          \cup (IF okR /\ ~cdef THEN {"C04.ReprCodeDefined"} ELSE {})
          \cup (IF ok /\ hasV /\ cnt.v = 0 THEN {"C04.ValueCount"} ELSE {})
+         \* an attribute component of an object carries as many values as its count says (nothing: absent-attribute component)
+         \cup (IF ok /\ inObj /\ ~hasV /\ ~dflt.hasValue /\ cnt.v # 0 THEN {"C04.ValueCount"} ELSE {})
   IN [ok |-> ok /\ cdef, next |-> p5 + (IF vlen > 0 THEN vlen ELSE 0), bad |-> bad,
       a |-> [label |-> lab.s, count |-> cnt.v, code |-> code, units |-> uni.s,
              hasValue |-> hasV \/ dflt.hasValue,
@@ -106,7 +108,7 @@ TemplateLoop(B, p, acc, bad) ==
   ELSE LET r == Role(B[p]) IN
     IF r = OBJECT THEN [next |-> p, tmpl |-> acc, bad |-> bad, fatal |-> FALSE]
     ELSE IF r \notin {ATTRIB, INVATR} THEN [next |-> p, tmpl |-> acc, bad |-> bad \cup {"C04.ComponentRole"}, fatal |-> TRUE]
-    ELSE LET c == AttrComponent(B, p, DefaultAttr) IN
+    ELSE LET c == AttrComponent(B, p, DefaultAttr, FALSE) IN
       IF ~c.ok THEN [next |-> p, tmpl |-> acc, bad |-> bad \cup c.bad, fatal |-> TRUE]
       ELSE TemplateLoop(B, c.next, Append(acc, c.a),
                         bad \cup c.bad \cup (IF c.a.label = << >> THEN {"C04.TemplateLabelNonEmpty"} ELSE {}))
@@ -122,7 +124,7 @@ ObjAttrLoop(B, p, tmpl, acc, bad) ==
     ELSE IF r = ABSATR THEN
       ObjAttrLoop(B, p + 1, tmpl, Append(acc, [DefaultAttr EXCEPT !.absent = TRUE, !.label = tmpl[k].label]),
                   bad \cup (IF B[p] % 32 # 0 THEN {"C04.ComponentRole"} ELSE {}))
-    ELSE LET c == AttrComponent(B, p, tmpl[k]) IN
+    ELSE LET c == AttrComponent(B, p, tmpl[k], TRUE) IN
       IF ~c.ok THEN [next |-> p, attrs |-> acc, bad |-> bad \cup c.bad, fatal |-> TRUE]
       ELSE ObjAttrLoop(B, c.next, tmpl, Append(acc, c.a),
                        bad \cup c.bad \cup (IF c.a.hasLabel THEN {"C04.AttrLabelInObject"} ELSE {}))
